@@ -2339,6 +2339,15 @@ impl Collection {
                 index.drop_data().await;
                 return Err(err);
             }
+            // Persist the backfilled entries before the index is registered:
+            // the collection metadata can become durable ahead of the next
+            // flush (removing another index or saving an extension writes it
+            // eagerly), and a registered index is trusted as complete for
+            // every document at or below the checkpoint on reopen.
+            if let Err(err) = index.flush(now_ms).await {
+                index.drop_data().await;
+                return Err(err);
+            }
             if field.unique() {
                 self.btree_indexes.insert(0, index);
             } else {
@@ -2362,6 +2371,11 @@ impl Collection {
             .await?;
 
             if let Err(err) = self.backfill_btree_index(&index, now_ms).await {
+                index.drop_data().await;
+                return Err(err);
+            }
+            // See the single-field branch: data first, registration second.
+            if let Err(err) = index.flush(now_ms).await {
                 index.drop_data().await;
                 return Err(err);
             }
@@ -2440,6 +2454,11 @@ impl Collection {
         .await?;
 
         if let Err(err) = self.backfill_bm25_index(&index, now_ms).await {
+            index.drop_data().await;
+            return Err(err);
+        }
+        // See `create_btree_index`: data first, registration second.
+        if let Err(err) = index.flush(now_ms).await {
             index.drop_data().await;
             return Err(err);
         }
@@ -2526,6 +2545,11 @@ impl Collection {
 
         let index = Hnsw::new(field, config, self.storage.clone(), now_ms).await?;
         if let Err(err) = self.backfill_hnsw_index(&index, now_ms).await {
+            index.drop_data().await;
+            return Err(err);
+        }
+        // See `create_btree_index`: data first, registration second.
+        if let Err(err) = index.flush(now_ms).await {
             index.drop_data().await;
             return Err(err);
         }
